@@ -597,18 +597,18 @@ theorem rep_run {cs : List Chunk} {v : Variant} (hcs : cs ≠ []) : ∀ (acts : 
 
 
 /-- whatever the eager scheduler of the driver does (faults included) is a run of the machine -/
-theorem runAuto_run (o : RmOrder) (ft : List Fault) : ∀ (fuel : Nat) (c : Cfg) (log : List Op),
+theorem runAuto_run (o : RmOrder) : ∀ (fuel : Nat) (ft : List Fault) (c : Cfg) (log : List Op),
     ∃ acts, run c acts = some (runAuto o ft fuel c log).cfg := by
   intro fuel
   induction fuel with
-  | zero => intro c log; exact ⟨[], rfl⟩
+  | zero => intro ft c log; exact ⟨[], rfl⟩
   | succ n ih =>
-    intro c log
+    intro ft c log
     unfold runAuto
     split
     · split
       · rename_i c' hs
-        obtain ⟨acts, ha⟩ := ih c' log
+        obtain ⟨acts, ha⟩ := ih ft c' log
         exact ⟨.abort :: acts, by simp [run, hs, ha]⟩
       · exact ⟨[], rfl⟩
     · split
@@ -619,9 +619,14 @@ theorem runAuto_run (o : RmOrder) (ft : List Fault) : ∀ (fuel : Nat) (c : Cfg)
         · exact ⟨[], rfl⟩
         · split
           · rename_i c' hs
-            obtain ⟨acts, ha⟩ := ih c' (match actOp c a with
+            obtain ⟨acts, ha⟩ := ih ft c' (match actOp c a with
               | some op => op :: log
               | none => log)
+            exact ⟨failOf a :: acts, by simp only [run, hs]; exact ha⟩
+          · exact ⟨[], rfl⟩
+        · split
+          · rename_i c' hs
+            obtain ⟨acts, ha⟩ := ih (ft.filter fun f => !(f.k == log.length && f.kind == .skip)) c' log
             exact ⟨failOf a :: acts, by simp only [run, hs]; exact ha⟩
           · exact ⟨[], rfl⟩
         · split
@@ -630,14 +635,14 @@ theorem runAuto_run (o : RmOrder) (ft : List Fault) : ∀ (fuel : Nat) (c : Cfg)
           · exact ⟨[], rfl⟩
         · split
           · rename_i c' hs
-            obtain ⟨acts, ha⟩ := ih c' (match actOp c a with
+            obtain ⟨acts, ha⟩ := ih ft c' (match actOp c a with
               | some op => op :: log
               | none => log)
             exact ⟨a :: acts, by simp only [run, hs]; exact ha⟩
           · exact ⟨[], rfl⟩
         · split
           · rename_i c' hs
-            obtain ⟨acts, ha⟩ := ih c' (match actOp c a with
+            obtain ⟨acts, ha⟩ := ih ft c' (match actOp c a with
               | some op => op :: log
               | none => log)
             exact ⟨a :: acts, by simp only [run, hs]; exact ha⟩
@@ -653,7 +658,7 @@ theorem attempt_reach {cs : List Chunk} {fs : FS} (h : Reach cs fs) (v : Variant
   · exact h
   · exact h
   · rename_i hst
-    obtain ⟨acts, ha⟩ := runAuto_run o fts (fuelFor (initCfg fs v {} cs hs)) (initCfg fs v {} cs hs) []
+    obtain ⟨acts, ha⟩ := runAuto_run o (fuelFor (initCfg fs v {} cs hs)) fts (initCfg fs v {} cs hs) []
     exact Reach.attempt h hv hsv hst ha
 
 end Strax.FS
